@@ -627,3 +627,29 @@ Proof. apply parse_print_program_from. Qed.
 
 Theorem print_idem p q : parse_program (print_program p) = POk q -> print_program q = print_program p.
 Proof. rewrite parse_print_program. intros [= <-]. reflexivity. Qed.
+
+(* ---- packaged forms used by Properties/C14.v *)
+Lemma pratt_expr_adequate rbp items t rest : Expr rbp items t rest ->
+  forall F, 2 * items_size items + 2 <= F -> pratt_expr F rbp items = POk (t, rest).
+Proof. intros H. exact (proj2 (proj1 pratt_adequate rbp items t rest H)). Qed.
+
+Lemma tables_consistent :
+  (forall o1 o2 : abinop, pb o1 < pb o2 <-> bp o2 < bp o1) /\
+  (forall o : abinop, ab o = passoc o) /\
+  (forall o : abinop, pu < pb o /\ bp o < bp_pre).
+Proof. split; [exact pb_bp|split; [exact ab_passoc|intros o; split; [apply pu_lt_pb|apply bp_lt_pre]]]. Qed.
+
+Lemma print_idem_bytes p q : parse_program (print_program p) = POk q ->
+  print_program q = print_program p /\ display_program q = display_program p.
+Proof.
+  intros H. pose proof (print_idem p q H) as E. split; [exact E|].
+  unfold display_program. rewrite E. reflexivity.
+Qed.
+
+Lemma text_roundtrip_given_lex p :
+  lex (display_program p) = Some (print_program p) -> program_numerals_ok p = true ->
+  parse_program_text (display_program p) = POk p.
+Proof.
+  intros HL HN. unfold parse_program_text. rewrite HL. rewrite parse_print_program_from.
+  cbn. rewrite HN. reflexivity.
+Qed.
